@@ -106,6 +106,18 @@ TABLE={ # id: (property, demo file, package dir, -run pattern, needs)
  "C06-f":("C06","zz_seed_demo_test.go","transports/p2p/p2psync","TestSeedDemo","a block announced by inv by a peer whose chain does not contain our tip, fork point above the 2000-header reply cap"),
  "C13-f":("C13","zz_seed_demo_test.go","service","TestSeedDemo","a getheaders with a longest-chain stop hash 2001 or more ahead of the start"),
  "C11-f":("C11","zz_seed_demo_test.go","service","TestSeedDemo","a submitted header whose hash is on the ignore list"),
+ "C16-g":("C16","zz_seed_demo_test.go","transports/http/endpoints/api/webhook","TestSeedDemo","POST /webhook with requiredAuth.type CUSTOM_HEADER and a missing or empty header name"),
+ "C12-g":("C12","zz_seed_demo_test.go","notification","TestSeedDemo","two webhooks with different authorisation header names notified in the same process"),
+ "C09-f":("C09","zz_seed_demo_test.go","transports/http/endpoints","TestSeedDemo","debug_profiling and use_auth both on (the defaults); a request to /api/v1/pprof/debug/*"),
+ "C19-f":("C19","zz_seed_demo_test.go","domains","TestSeedDemo","FastLog2Floor(n) with n >= 2^28 and bits 16..27 all zero"),
+ "C07-f":("C07","zz_seed_demo_test.go","internal/transports/p2p/peer","TestSeedDemo","experimental engine, one headers batch that crosses the first checkpoint and contradicts the second"),
+ "C14-f":("C14","zz_seed_demo_test.go","internal/wire","TestSeedDemo","a version message encoded at pver >= 70001 whose ProtocolVersion field is below 70001 with DisableRelayTx set"),
+ "C06-g":("C06","zz_seed_demo_test.go","internal/transports/p2p/peer","TestSeedDemo","experimental engine, the store's tip on a branch the peer does not follow and the peer's branch overtaking it within one reply"),
+ "C17-f":("C17","zz_seed_demo_test.go","database","TestSeedDemo","an export over an existing longer file (output path reused, or a leftover temporary csv)"),
+ "C04-f":("C04","zz_seed_demo_test.go","transports/http/endpoints/api/tips","TestSeedDemo","a warm tip cache and then a reorganisation to a branch with more work whose tip is not higher than the old tip"),
+ "C03-f":("C03","zz_seed_demo_test.go","service","TestSeedDemo","difficulty bits that decode to a target of exactly zero"),
+ "C08-f":("C08","zz_seed_demo_test.go","transports/http/endpoints/api/merkleroots","TestSeedDemo","a lastEvaluatedKey that belongs to a STALE or ORPHAN header (real SQL)"),
+ "C05-g":("C05","zz_seed_demo_test.go","database","TestSeedDemo","a process kill inside a write transaction after sqlite has started writing pages (journal kept in memory by the DSN)"),
 }
 ENV=dict(os.environ,GOFLAGS="-mod=mod",GOPROXY="off")
 def run(cmd,cwd,timeout=1500):
